@@ -43,8 +43,22 @@ func (f Flags) args() []string {
 	return a
 }
 
+func (f Flags) patterns() []string {
+	if f.Pattern == "" {
+		return []string{"./..."}
+	}
+	return strings.Fields(f.Pattern)
+}
+
+func (f Flags) goflags() string {
+	if f.Trimpath {
+		return "-mod=mod -trimpath"
+	}
+	return "-mod=mod"
+}
+
 func (f Flags) String() string {
-	return "GOOS=" + f.GOOS + " staticcheck " + strings.Join(f.args(), " ") + " ./..."
+	return "GOOS=" + f.GOOS + " GOFLAGS='" + f.goflags() + "' staticcheck " + strings.Join(f.args(), " ") + " " + strings.Join(f.patterns(), " ")
 }
 
 // staticcheck runs the real binary in dir with the given cache directory.
@@ -55,7 +69,7 @@ func staticcheck(dir, root, cache string, f Flags) (*runOut, error) {
 	}
 	meas.Close()
 	defer os.Remove(meas.Name())
-	args := append(f.args(), "-debug.measure-analyzers", meas.Name(), "./...")
+	args := append(append(f.args(), "-debug.measure-analyzers", meas.Name()), f.patterns()...)
 	cmd := exec.Command(filepath.Join(ev.BinDir(), "staticcheck"), args...)
 	cmd.Dir = dir
 	var env []string
@@ -67,7 +81,7 @@ func staticcheck(dir, root, cache string, f Flags) (*runOut, error) {
 		}
 		env = append(env, kv)
 	}
-	cmd.Env = append(env, "STATICCHECK_CACHE="+cache, "GOOS="+f.GOOS, "GOFLAGS=-mod=mod", "GOPROXY=off", "GOWORK=off", "GOMAXPROCS=4", "CGO_ENABLED=0")
+	cmd.Env = append(env, "STATICCHECK_CACHE="+cache, "GOOS="+f.GOOS, "GOFLAGS="+f.goflags(), "GOPROXY=off", "GOWORK=off", "GOMAXPROCS=4", "CGO_ENABLED=0")
 	var o, e bytes.Buffer
 	cmd.Stdout, cmd.Stderr = &o, &e
 	t0 := time.Now()
@@ -157,7 +171,7 @@ func stdKey(f Flags, http bool) string {
 	if g == "" {
 		g = "module"
 	}
-	return fmt.Sprintf("%s-%s-http%v", g, f.GOOS, http)
+	return fmt.Sprintf("%s-%s-http%v-trimpath%v", g, f.GOOS, http, f.Trimpath)
 }
 
 // stdBase returns the directory of the std base cache for the flags, building it if needed.
@@ -187,7 +201,7 @@ func stdBase(f Flags, http bool) (string, error) {
 		if err := os.MkdirAll(dir, 0o755); err != nil {
 			return err
 		}
-		wf := Flags{Go: f.Go, GOOS: f.GOOS, Tests: true, Checks: "all"}
+		wf := Flags{Go: f.Go, GOOS: f.GOOS, Tests: true, Checks: "all", Trimpath: f.Trimpath}
 		res, err := staticcheck(src, src, dir, wf)
 		if err != nil {
 			return err
@@ -284,6 +298,7 @@ type verdict struct {
 	classes    []string
 	runs       []runInfo
 	truncated  bool
+	known      string
 }
 
 type disk struct {
@@ -339,7 +354,7 @@ func diffLines(a, b []string) (onlyA, onlyB []string) {
 func topLines(ls []string) string {
 	var out []string
 	for _, l := range ls {
-		if strings.Contains(l, `"file":"$D/m/top/`) {
+		if strings.Contains(l, `"file":"$D/m/top/`) || strings.Contains(l, `"file":"$D/alt/m/top/`) {
 			out = append(out, l)
 		}
 	}
@@ -371,7 +386,6 @@ func evaluate(h *History, logf func(string, ...any)) (v verdict) {
 		return
 	}
 	defer os.RemoveAll(root)
-	mod := filepath.Join(root, "m")
 	persist := filepath.Join(root, "cache-persistent")
 	os.MkdirAll(persist, 0o755)
 	merged := map[string]bool{}
@@ -410,7 +424,7 @@ func evaluate(h *History, logf func(string, ...any)) (v verdict) {
 		}
 		if a.Kind == "touch" {
 			memo = map[string]*runOut{}
-			p := filepath.Join(root, "m", a.Name)
+			p := filepath.Join(root, st.Tree.modDir(), a.Name)
 			if _, err := os.Stat(p); err == nil {
 				if a.Val == "rewrite" {
 					if b, err := os.ReadFile(p); err == nil {
@@ -449,7 +463,7 @@ func evaluate(h *History, logf func(string, ...any)) (v verdict) {
 			}
 			merged[k] = true
 		}
-		warm, err := staticcheck(mod, root, persist, st.Flags)
+		warm, err := staticcheck(filepath.Join(root, st.Tree.modDir()), root, persist, st.Flags)
 		if err != nil {
 			v.infra = err.Error()
 			return
@@ -469,7 +483,7 @@ func evaluate(h *History, logf func(string, ...any)) (v verdict) {
 				v.infra = "copying the std base: " + err.Error()
 				return
 			}
-			cold, err = staticcheck(mod, root, fresh, st.Flags)
+			cold, err = staticcheck(filepath.Join(root, st.Tree.modDir()), root, fresh, st.Flags)
 			if err != nil {
 				v.infra = err.Error()
 				return
@@ -558,7 +572,7 @@ func evaluate(h *History, logf func(string, ...any)) (v verdict) {
 			}
 			// fact flips in dep
 			prev := snaps[n-1]
-			flip, other := false, prev.Flags != st.Flags || prev.Tree.GoMod != st.Tree.GoMod || fmt.Sprint(prev.Tree.Conf) != fmt.Sprint(st.Tree.Conf)
+			flip, other := false, prev.Flags != st.Flags || prev.Tree.GoMod != st.Tree.GoMod || prev.Tree.Alt != st.Tree.Alt || fmt.Sprint(prev.Tree.Conf) != fmt.Sprint(st.Tree.Conf)
 			for _, name := range toggles {
 				if prev.Tree.On[name] != st.Tree.On[name] {
 					if depFactToggles[name] {
@@ -591,7 +605,7 @@ func evaluate(h *History, logf func(string, ...any)) (v verdict) {
 			fresh2, err := os.MkdirTemp(root, "cache-fresh-")
 			if err == nil {
 				mergeCache(base, fresh2)
-				cold2, err2 := staticcheck(mod, root, fresh2, st.Flags)
+				cold2, err2 := staticcheck(filepath.Join(root, st.Tree.modDir()), root, fresh2, st.Flags)
 				os.RemoveAll(fresh2)
 				if err2 == nil && (strings.Join(cold2.lines, "\n") != strings.Join(cold.lines, "\n") || cold2.exit != cold.exit) {
 					a, b := diffLines(cold.lines, cold2.lines)
@@ -603,9 +617,33 @@ func evaluate(h *History, logf func(string, ...any)) (v verdict) {
 					return
 				}
 			}
+			// finding trimpath-second-checkout: under -trimpath the entries written in
+			// the other checkout are served, with the other checkout's file names
+			if sig := "trimpath-second-checkout"; st.Flags.Trimpath && warm.exit == cold.exit && ev.IsKnown(sig) {
+				other := false
+				for _, sn := range snaps {
+					other = other || (sn.Flags.Trimpath && sn.Tree.Alt != st.Tree.Alt)
+				}
+				norm := func(ls []string) string {
+					out := make([]string, len(ls))
+					for i, l := range ls {
+						out[i] = strings.ReplaceAll(l, "$D/alt/m/", "$D/m/")
+					}
+					sort.Strings(out)
+					return strings.Join(out, "\n")
+				}
+				if other && norm(warm.lines) == norm(cold.lines) {
+					ev.KnownFinding(sig, "with GOFLAGS=-trimpath a second checkout of the same module that shares the cache gets the problems of the first checkout, located in the first checkout's files")
+					logf("step %d: KNOWN-FINDING %s", i, sig)
+					v.known = sig
+					v.truncated = true
+					v.classes = sortedKeys(classes)
+					return
+				}
+			}
 			onlyWarm, onlyCold := diffLines(warm.lines, cold.lines)
 			var sb strings.Builder
-			fmt.Fprintf(&sb, "history (module %s in $D/m, one persistent STATICCHECK_CACHE):\n%s", modPath, describe(h, i))
+			fmt.Fprintf(&sb, "history (module %s in $D/%s, one persistent STATICCHECK_CACHE):\n%s", modPath, st.Tree.modDir(), describe(h, i))
 			fmt.Fprintf(&sb, "at step %d, `%s`\n  with the persistent cache: exit %d, %d problems (packages analysed: %v; served from the cache: %v)\n  with an empty cache:       exit %d, %d problems\n", i, st.Flags, warm.exit, len(warm.lines), analysed, hit, cold.exit, len(cold.lines))
 			fmt.Fprintf(&sb, "reported only with the persistent cache (%d):\n", len(onlyWarm))
 			for _, l := range onlyWarm {
